@@ -392,6 +392,12 @@ def judge(run, des, out, workload, block, cfg, mode, case):
             if aliased & onpath:
                 key = 'named_module_port_aliasing'
                 fields = dict(mechanism='body of a shared named module was emitted from an instance with two ports on one wire')
+            c0 = culprits[0]
+            if key == 'c01_output_mismatch' and c0.get('block') == 'DualPortSynchronousMemory' and str(c0.get('port', '')).startswith('readdata'):
+                ws = c0.get('widths', {})
+                if len({ws.get(n) for n in ('readdata_a', 'readdata_b', 'writedata_a', 'writedata_b')}) > 1:
+                    key = 'dualport_memory_ports_of_different_widths'
+                    fields = dict(block='DualPortSynchronousMemory', clause='data nets of different widths')
         run.violation(key, fields, dict(case, mismatch=m), expected=m['simulator'], observed=m['verilog'],
                       what='%s: output %s %s cycle %d: simulator %d, verilog %d' % (des.label, m['output'], m['when'], m['cycle'], m['simulator'], m['verilog']))
     if run.evaluations % 97 == 1:
